@@ -2509,6 +2509,10 @@ pub fn run(ctx: &Ctx, rep: &mut Reporter) {
         let mut rng = Rng::derive(ctx.seed, 1900, b * ctx.nshards + ctx.shard);
         let ep = if miri {
             miri_round[b as usize].clone()
+        } else if (b as usize) < eps.len() {
+            // first one batch of every entry point, so that a shard cut short by its budget on a
+            // loaded machine has still exercised every family
+            eps[b as usize].0.clone()
         } else {
             let mut w = rng.below(total_w as usize) as u32;
             let mut pick = eps[0].0.clone();
